@@ -103,6 +103,12 @@ pub fn menu_large(a: usize, b: usize) -> Menu {
     }
 }
 
+/// the decimal menu for books with two slots on a side: three prices (the equal-but-differently-written
+/// pair "1.5" / "1.50" stays in the one-by-one books)
+pub fn menu_p2s(a: usize, b: usize) -> Menu {
+    Menu { prices: vec!["0.5", "1", "1.5"], ..menu_p2(a, b) }
+}
+
 /// precision 2, increment 100
 pub fn menu_p3(a: usize, b: usize) -> Menu {
     Menu {
@@ -357,8 +363,8 @@ fn ledger_scenarios(tier: Tier, extra_probes: &dyn Fn(&Cfg, &Menu) -> Vec<Act>) 
         mk("B21/P1/F2/R4", Cfg::new(0, 2, ("0.1", "0.1"), "R4"), Menu { prices: vec!["2", "7"], ..menu_p1(2, 1) }, &mut v);
         mk("B12/P1big/F1/R0", Cfg::new(0, 2, ("0.25", "0.25"), "R0"), menu_p1_big(1, 2), &mut v);
         mk("B12/P1/third/R0", Cfg::new(0, 2, ("0.333", "0.333"), "R0"), Menu { sizes: vec![2, 4, 6], match_sizes: vec![1, 2, 3, 4, 5, 6], ..menu_p1(1, 2) }, &mut v);
-        mk("B12/P2/F1/R0", Cfg::new(1, 10, ("0.25", "0.25"), "R0"), menu_p2(1, 2), &mut v);
-        mk("B21/P2/F1/R1", Cfg::new(1, 10, ("0.25", "0.25"), "R1"), menu_p2(2, 1), &mut v);
+        mk("B12/P2/F1/R0", Cfg::new(1, 10, ("0.25", "0.25"), "R0"), menu_p2s(1, 2), &mut v);
+        mk("B21/P2/F1/R1", Cfg::new(1, 10, ("0.25", "0.25"), "R1"), menu_p2s(2, 1), &mut v);
         mk("B12/P0/F3/R2", Cfg::new(0, 1, ("0.5", "0.5"), "R2"), menu_p0(1, 2, vec!["1", "2", "3"]), &mut v);
         mk("B21/P1/F1/R3/rrr", with_markers(Cfg::new(0, 2, ("0.25", "0.25"), "R3"), "rrr"), menu_p1(2, 1), &mut v);
         mk("B11/P3/F2/R0", Cfg::new(2, 100, ("0.1", "0.1"), "R0"), menu_p3(1, 1), &mut v);
@@ -432,8 +438,9 @@ pub fn plan(prop: &str, tier: Tier) -> Plan {
             }
             if th {
                 mk("B21/multi-denom", multi(Cfg::new(0, 2, ("0.25", "0.25"), "R0")), menu_multi(2, 1), &mut v);
-                mk("B12/P2/F1/R0", Cfg::new(1, 10, ("0.25", "0.25"), "R0"), menu_p2(1, 2), &mut v);
-                mk("B21/P2/F0/R3", Cfg::new(1, 10, ("", ""), "R3"), menu_p2(2, 1), &mut v);
+                // (the full match product on two-sided decimal books was measured at 3.7e9 transitions per book)
+                mk("B12/P2-two-prices/F1/R0", Cfg::new(1, 10, ("0.25", "0.25"), "R0"), Menu { prices: vec!["1", "1.5"], match_sizes: vec![5, 10, 20], ..menu_p2(1, 2) }, &mut v);
+                mk("B21/P2-two-prices/F0/R3", Cfg::new(1, 10, ("", ""), "R3"), Menu { prices: vec!["0.5", "1.5"], match_sizes: vec![2, 10, 20], ..menu_p2(2, 1) }, &mut v);
                 mk("B11/P3/F1/R0", Cfg::new(2, 100, ("0.25", "0.25"), "R0"), menu_p3(1, 1), &mut v);
                 mk("B12/P1big/F2/R0", Cfg::new(0, 2, ("0.1", "0.1"), "R0"), menu_p1_big(1, 2), &mut v);
             }
@@ -514,12 +521,12 @@ pub fn plan(prop: &str, tier: Tier) -> Plan {
             v.extend(upgrade_family(&no_probes, true));
             if th {
                 mk("B22/P1/F1/R0", Cfg::new(0, 2, ("0.25", "0.25"), "R0"), menu_p1(2, 2), &mut v);
-                mk("B12/P2/F1/R0", Cfg::new(1, 10, ("0.25", "0.25"), "R0"), menu_p2(1, 2), &mut v);
-                mk("B21/P2/F0/R0", Cfg::new(1, 10, ("", ""), "R0"), menu_p2(2, 1), &mut v);
+                mk("B12/P2/F1/R0", Cfg::new(1, 10, ("0.25", "0.25"), "R0"), menu_p2s(1, 2), &mut v);
+                mk("B21/P2/F0/R0", Cfg::new(1, 10, ("", ""), "R0"), menu_p2s(2, 1), &mut v);
                 mk("B12/P1big/F2/R4", Cfg::new(0, 2, ("0.1", "0.1"), "R4"), menu_p1_big(1, 2), &mut v);
                 mk("B12/P1/third/R0", Cfg::new(0, 2, ("0.333", "0.333"), "R0"), Menu { sizes: vec![2, 4, 6], match_sizes: vec![1, 2, 3, 4, 5, 6], ..menu_p1(1, 2) }, &mut v);
                 mk("B21/P1/F1/R0/rur", with_markers(Cfg::new(0, 2, ("0.25", "0.25"), "R0"), "rur"), menu_p1(2, 1), &mut v);
-                v.push(with_legacy_seed(scen("B12/P2/F1/R0", Cfg::new(1, 10, ("0.25", "0.25"), "R0"), menu_p2(1, 2), vec![])));
+                v.push(with_legacy_seed(scen("B12/P2/F1/R0", Cfg::new(1, 10, ("0.25", "0.25"), "R0"), menu_p2s(1, 2), vec![])));
                 v.push(with_legacy_seed(scen("B21/P1/F1/R0", Cfg::new(0, 2, ("0.25", "0.25"), "R0"), menu_p1(2, 1), vec![])));
             }
             Plan { scenarios: v, hooks: vec![HookKind::Exit] }
@@ -575,7 +582,8 @@ pub fn plan(prop: &str, tier: Tier) -> Plan {
             if th {
                 mk("B21/P1/F1/R1", Cfg::new(0, 2, ("0.25", "0.25"), "R1"), menu_p1(2, 1), &mut v);
                 mk("B21/P1big/F1/R0", Cfg::new(0, 2, ("0.25", "0.25"), "R0"), menu_p1_big(2, 1), &mut v);
-                mk("B21/P2/F1/R0/rrr", with_markers(Cfg::new(1, 10, ("0.25", "0.25"), "R0"), "rrr"), menu_p2(2, 1), &mut v);
+                mk("B21/P2-two-prices/F1/R0/rrr", with_markers(Cfg::new(1, 10, ("0.25", "0.25"), "R0"), "rrr"), Menu { prices: vec!["1", "1.5"], match_sizes: vec![5, 10, 20], ..menu_p2(2, 1) }, &mut v);
+                mk("B11/P2/F1/R0/rrr", with_markers(Cfg::new(1, 10, ("0.25", "0.25"), "R0"), "rrr"), menu_p2(1, 1), &mut v);
                 mk("B12/P0/F3/R4", Cfg::new(0, 1, ("0.5", "0.5"), "R4"), menu_p0(1, 2, vec!["1", "2"]), &mut v);
             }
             Plan { scenarios: v, hooks: vec![HookKind::Exit] }
@@ -600,7 +608,7 @@ pub fn plan(prop: &str, tier: Tier) -> Plan {
                 mk("B12/P1big/F1", Cfg::new(0, 2, ("0.25", "0.25"), "R0"), plain(menu_p1_big(1, 2)), &mut v);
                 mk("B12/P1/third", Cfg::new(0, 2, ("0.333", "0.333"), "R0"), plain(Menu { sizes: vec![2, 4, 6], match_sizes: vec![1, 2, 3, 4, 5, 6], ..menu_p1(1, 2) }), &mut v);
                 mk("B12/P0/rate.2", Cfg::new(0, 1, ("0.2", "0.2"), "R0"), plain(Menu { sizes: vec![3, 5], match_sizes: vec![1, 2, 3, 4, 5], ..menu_p0(1, 2, vec!["7", "9"]) }), &mut v);
-                mk("B12/P2/F2", Cfg::new(1, 10, ("0.1", "0.1"), "R0"), plain(menu_p2(1, 2)), &mut v);
+                mk("B12/P2/F2", Cfg::new(1, 10, ("0.1", "0.1"), "R0"), plain(menu_p2s(1, 2)), &mut v);
                 mk("B21/P0/rate.03", Cfg::new(0, 5, ("0.03", "0.03"), "R0"), plain(Menu { sizes: vec![10, 50], match_sizes: vec![5, 15, 45], reject_sizes: vec![5, 15], prices: vec!["1", "2"], ..menu_p0(2, 1, vec![]) }), &mut v);
                 mk("B11/P3/F1", Cfg::new(2, 100, ("0.25", "0.25"), "R0"), plain(menu_p3(1, 1)), &mut v);
             }
@@ -684,7 +692,7 @@ pub fn plan(prop: &str, tier: Tier) -> Plan {
             v.push(scen("B11/P1/rates-0.250-0.2500", Cfg::new(0, 2, ("0.250", "0.2500"), "R0"), Menu { prices: vec!["2"], ..menu_p1(1, 1) }, vec![]));
             if th {
                 v.push(scen("B22/P1/F1/R0", Cfg::new(0, 2, ("0.25", "0.25"), "R0"), menu_p1(2, 2), vec![]));
-                v.push(with_legacy_seed(scen("B12/P2/F1/R0", Cfg::new(1, 10, ("0.25", "0.25"), "R0"), menu_p2(1, 2), vec![])));
+                v.push(with_legacy_seed(scen("B12/P2/F1/R0", Cfg::new(1, 10, ("0.25", "0.25"), "R0"), menu_p2s(1, 2), vec![])));
                 v.push(scen("B21/P1/F1/R4/rur", with_markers(Cfg::new(0, 2, ("0.25", "0.25"), "R4"), "rur"), menu_p1(2, 1), vec![]));
             }
             Plan { scenarios: v, hooks: vec![HookKind::Query] }
